@@ -1,5 +1,5 @@
 """C08 - the transposition table never returns mixed or out-of-range data.
-(i) TTSlot.tla: TLC exhausts writers x prober on one two-word slot, both word orders per store/load: HitIsAUnit (the un-xored mutant
+(i) TTSlot.tla: TLC exhausts writers x prober on one two-word slot, both word orders per store/load: HitIsAUnit (the un-xored and the data-word-read-twice mutant
     configuration must be refuted: vacuity control).  (ii) TTIndex.tla: the index lemma for every table size, discharged by Apalache
     (unbounded integers).  (iii) the real table: concurrent hammer on few buckets with catalogue units (every distinct probe result
     must be a catalogue unit for that key), index records for many sizes incl. the reduced size with a resident tablebase checked against
@@ -33,6 +33,10 @@ def run(tier, seed):
     rep.cov["slot_model_refutes_unxored_store"] = bool(rm.violated)
     if not rm.violated:
         raise vlib.ToolFailure("vacuity control failed: TTSlot with XorEncoding=FALSE was not refuted")
+    rr = vlib.tlc("TTSlot.tla", "TTSlot_reread.cfg", os.path.join(wd, "slotr"), workers=8, timeout=1800, xmx="8g")
+    rep.cov["slot_model_refutes_second_data_read"] = bool(rr.violated)
+    if not rr.violated:
+        raise vlib.ToolFailure("vacuity control failed: TTSlot with RereadData=TRUE was not refuted")
     # (ii) index lemma
     try:
         p = subprocess.run(["apalache-mc", "check", "--length=0", "--inv=IndexSafe", "--init=Init", "--next=Next", f"--out-dir={wd}/apalache",
